@@ -1,6 +1,7 @@
 """
 This module contains the incremental SAGE explainer.
 """
+import copy
 from typing import Callable, Any, Union, Dict, Sequence, Optional
 
 import numpy as np
@@ -121,6 +122,7 @@ class IncrementalSage(BaseIncrementalFeatureImportance):
         Returns:
             (dict): The current SAGE feature importance scores.
         """
+        marginal_contributions = None
         if self.seen_samples >= 1:
             if n_inner_samples is None:
                 n_inner_samples = self.n_inner_samples
@@ -128,11 +130,12 @@ class IncrementalSage(BaseIncrementalFeatureImportance):
                                  np.random.permutation(len(self.feature_names))]
             y_i_pred = self._model_function(x_i)
             model_loss = self._loss_function(y_i, y_i_pred)
-            self._model_loss_tracker.update(model_loss)
-            self._marginal_prediction_tracker.update(y_i_pred)
-            self.marginal_prediction = self._marginal_prediction_tracker.get_normalized()
-            sample_loss = self._loss_function(y_i, self.marginal_prediction)
-            self._marginal_loss_tracker.update(sample_loss)
+            # nothing is committed to the trackers before all callbacks have returned
+            marginal_prediction_tracker = copy.deepcopy(self._marginal_prediction_tracker)
+            marginal_prediction_tracker.update(y_i_pred)
+            marginal_prediction = marginal_prediction_tracker.get_normalized()
+            marginal_loss = self._loss_function(y_i, marginal_prediction)
+            sample_loss = marginal_loss
             features_not_in_s = set(self.feature_names)
             marginal_contributions = {}
             for feature in permutation_chain:
@@ -147,6 +150,13 @@ class IncrementalSage(BaseIncrementalFeatureImportance):
                 marginal_contribution = sample_loss - feature_loss
                 sample_loss = feature_loss
                 marginal_contributions[feature] = marginal_contribution
+        if update_storage:
+            self._storage.update(x_i, y_i)
+        if marginal_contributions is not None:
+            self._model_loss_tracker.update(model_loss)
+            self._marginal_prediction_tracker = marginal_prediction_tracker
+            self.marginal_prediction = marginal_prediction
+            self._marginal_loss_tracker.update(marginal_loss)
             self._importance_trackers.update(marginal_contributions)
             variances = {
                 feature: (marginal_contributions[feature] - self.importance_values[feature])**2
@@ -154,6 +164,4 @@ class IncrementalSage(BaseIncrementalFeatureImportance):
             }
             self._variance_trackers.update(variances)
         self.seen_samples += 1
-        if update_storage:
-            self._storage.update(x_i, y_i)
         return self.importance_values
